@@ -44,7 +44,8 @@ def full_capacity(rng, mp, ec, style, extra_block=None):
     return fs
 
 
-def qr_workload(ctx, maps, g):
+def qr_workload(ctx, maps, g, extra_maps=None):
+    extra_maps = extra_maps or {}
     rng = random.Random(ctx.seed * 13 + 1)
     ev = []
     sweep_full = [1, 5, 7, 10, 14] if ctx.quick else list(maps)
@@ -73,6 +74,15 @@ def qr_workload(ctx, maps, g):
             nb = len(mp["blocks"][ec - 1])
             sets.append(mkset(mp, ec, full_capacity(rng, mp, ec, 2, extra_block=rng.randint(1, nb))))
             ev.append(dict(op="dmg", text=text, ec=ec, vh=v, mh=(v + ec + ctx.seed) % 8, cs=cs, sets=sets, tag="blocks"))
+    # (v) every other version: one symbol (rotating level) with full-capacity scripts - decoder-only table slips (alignment centres,
+    #     block structure of one version) are absorbed by error correction on clean symbols and only show under damage
+    for v in sorted(extra_maps):
+        mp = extra_maps[v]
+        ec = 1 + (v + ctx.seed) % 4
+        cap = g["caps"][v - 1][ec - 1][2]
+        text, cs = qrlib.text_of("byte", max(1, cap - 1), rng)
+        sets = [mkset(mp, ec, full_capacity(rng, mp, ec, st)) for st in (2, 1, 2)]
+        ev.append(dict(op="dmg", text=text, ec=ec, vh=v, mh=(v + ctx.seed) % 8, cs=cs, sets=sets, tag="allversions"))
     # (iii) format information: all subsets of <= 3 of the 15 bits of copy 1 (copy 2 intact / also damaged by <= 3), and of copy 2
     for ec in range(1, 5):
         for v in ([1] if ctx.quick else [1, 2, 7]):
@@ -121,7 +131,8 @@ def run(ctx):
     g = qrlib.gen_caps(ctx)
     versions = [1, 5, 7, 10, 14, 27, 40] if ctx.quick else list(range(1, 41))
     maps = qr_maps(ctx, versions)
-    judge_qr(ctx, qr_workload(ctx, maps, g), "C05 QR damage")
+    extra = qr_maps(ctx, [v for v in range(1, 41) if v not in versions]) if ctx.quick else {}
+    judge_qr(ctx, qr_workload(ctx, maps, g, extra), "C05 QR damage")
     try:
         import c05dm
         c05dm.run_dm(ctx)
